@@ -467,7 +467,7 @@ def c16(ctx):
 
 
 # ------------------------------------------------------------------ C13
-def life_cfg(rounds, attempts, outcomes, sm, d6=False, d12=False, d27=False, d26=False, d28=False, emit=True, inv=None):
+def life_cfg(rounds, attempts, outcomes, sm, d6=False, d12=False, d27=False, d26=False, d28=False, emit=True, inv=None, restarts=0, disarm=False, props=True):
     b = lambda x: "TRUE" if x else "FALSE"
     return """SPECIFICATION Spec
 CONSTANTS
@@ -481,13 +481,15 @@ CONSTANTS
   DialErrorPermanent = %s
   KeepaliveOutlivesSession = %s
   FailedDialClearsConn = %s
+  MaxRestarts = %d
+  StopDisarms = %s
   Emit = %s
 INVARIANTS %s %s
-PROPERTIES C13_LossLeadsToSession
+%s
 CHECK_DEADLOCK FALSE
-""" % (rounds, attempts, outcomes, b(sm), b(d6), b(d12), b(d27), b(d26), b(d28), b(emit),
+""" % (rounds, attempts, outcomes, b(sm), b(d6), b(d12), b(d27), b(d26), b(d28), restarts, b(disarm), b(emit),
        inv or "C13_AtMostOneLoop C13_OneSessionPerLoss C13_PostConnectOncePerSession C13_AtMostOneLiveSession C13_PermanentEndsLoop C13_OnlyPermanentErrorsEndLoop C13_StopReturnsRun C13_NoPanic C18_KeepaliveEndsWithSession",
-       "EmitInv" if emit else "")
+       "EmitInv" if emit else "", "PROPERTIES C13_LossLeadsToSession" if props else "")
 
 
 @check("C13")
@@ -497,7 +499,9 @@ def c13(ctx):
         scen = []
         allo = S("refuse", "reset", "transient", "auth", "authtext")
         gens = [dict(rounds=1, attempts=2, outcomes=allo, sm=True), dict(rounds=1, attempts=1, outcomes=allo, sm=False),
-                dict(rounds=2, attempts=1, outcomes=S("refuse", "transient"), sm=True)]
+                dict(rounds=2, attempts=1, outcomes=S("refuse", "transient"), sm=True),
+                # the application stops the manager and runs it again, losses before and after
+                dict(rounds=2 if q else 3, attempts=1, outcomes=S("refuse") if q else S("refuse", "reset"), sm=True, restarts=1)]
         if not q:
             gens += [dict(rounds=2, attempts=2, outcomes=allo, sm=True), dict(rounds=3, attempts=1, outcomes=S("reset", "transient"), sm=False)]
         for g in gens:
@@ -511,6 +515,10 @@ def c13(ctx):
                              cfgtext=life_cfg(rounds=2, attempts=2, outcomes=allo, sm=True, emit=False, **kw))
             if r["code"] != code:
                 raise Infra("non-vacuity: the model variant '%s' did not violate a C13 property (exit %d)" % (name, r["code"]))
+        r = vlib.run_tlc(ctx, "Lifecycle", "MC_Lifecycle.cfg", workers=2, timeout=300,
+                         cfgtext=life_cfg(rounds=2, attempts=1, outcomes=S("refuse"), sm=True, emit=False, restarts=1, disarm=True))
+        if r["code"] != 13:
+            raise Infra("non-vacuity: the variant in which Stop disarms the manager did not violate C13_LossLeadsToSession (exit %d)" % r["code"])
         ctx.notes["non_vacuity"] = "model variants with D6 / D12 / D27 / D26 / D28 (code as found) each violate a C13 invariant"
         ctx.exhaustive = True
         ctx.notes["bounds"] = "fault sequences: k<=%d losses (abrupt reset / graceful stream close) x up to 2 failing attempts per loss from {connection refused, reset at open, negotiation torn down, credentials rejected} x resumption accepted or refused, SM on/off, then Stop" % (2 if q else 3)
